@@ -387,7 +387,7 @@ def plan(tier, seed):
     quick = tier == 'quick'
     n = 320 if quick else 9600
     return [{'name': 'sm-%d' % k, 'kind': 'sm', 'n': n // 16, 'steps': 25 if quick else 60,
-             'hseed': seed * 1000 + k, 'shrink': True} for k in range(16)]
+             'hseed': seed * 1000 + k, 'shrink': not quick} for k in range(16)]
 
 
 def run_shard(shard):
